@@ -275,15 +275,17 @@ def m_c03(out) -> list[Violation]:
             if sp and sp.get("kind") in ("after", "on_failure"):
                 par = specs[sp["parent"]]
                 pend = [t for t in range(len(par.get("tasks", []))) if task_st.get((sp["parent"], t), "NOT_STARTED") not in COMPLETE]
-                if pend and sp.get("kind") == "on_failure":
-                    # an on-failure stage also follows a failure BEFORE the parent's own tasks: a before stage that halted
-                    # (the parent's tasks then never run), or a task that failed with later tasks left untouched
+                if pend:
+                    # an after / on-failure stage also follows a failure that ENDS the parent's core work early: a before
+                    # stage that halted (the parent's tasks then never run; with continuePipelineOnFailure the parent still
+                    # gets its after stages), or a task that failed with the later tasks left untouched.  What must not
+                    # happen then is an after stage starting while a task of the parent is still in progress.
                     sts = statuses_at(out, row["seq"])
                     before_halted = any(sts.get(c) in ("TERMINAL", "STOPPED", "CANCELED") for c in kids.get((sp["parent"], "before"), []))
                     task_failed = any(task_st.get((sp["parent"], t)) in ("TERMINAL", "STOPPED", "CANCELED", "FAILED_CONTINUE")
                                       for t in range(len(par.get("tasks", []))))
                     if before_halted or task_failed:
-                        pend = []
+                        pend = [t for t in pend if task_st.get((sp["parent"], t), "NOT_STARTED") in ("RUNNING", "PAUSED", "SUSPENDED")]
                 if pend:
                     vs.append(Violation(
                         what=f"after stage {ref} started while tasks {pend} of its parent {sp['parent']} were not complete",
